@@ -63,7 +63,7 @@ func (propC10) Gen(r *Rng, tier string) *World {
 		}
 	}
 	w.Cfg.ViaDirect = r.P(0.3)
-	w.Cfg.DirStyle = r.Intn(6)
+	w.Cfg.DirStyle = r.Intn(8)
 	w.Cfg.ViaAPI = r.P(0.4)
 	w.Cfg.Event = []string{"", "", "", "report"}[r.Intn(4)]
 	w.Masks = []int{0, OptCF, r.Intn(16) | OptCF, r.Intn(16), []int{OptRN, OptFE, OptRN | OptFE}[r.Intn(3)]}
